@@ -267,3 +267,27 @@ def build_impl(q, case):
     for i, j, r in case["rho"]:
         q.set_correlation(meas[i], meas[j], unbits(r))
     return objs, meas
+
+
+def ref_eval_all(case, vals):
+    """reference values of every node for measurement values `vals` (floats); None when some
+    operator application leaves the guarded domain"""
+    out = []
+    for n in case["nodes"]:
+        t = n[0]
+        if t in ("var", "pair"):
+            v = vals[n[1]]
+        elif t == "const":
+            v = unbits(n[1])
+        elif t == "un":
+            v = ref_un(n[1], out[n[2]])
+        elif t == "deg":
+            inner = {"sind": "sin", "cosd": "cos", "tand": "tan", "secd": "sec",
+                     "cscd": "csc", "cotd": "cot"}[n[1]]
+            v = ref_un(inner, out[n[2]] / 180 * math.pi)
+        else:
+            v = ref_bin(n[1], out[n[2]], out[n[3]], b_is_const=(case["nodes"][n[3]][0] == "const"))
+        if v is None or isinstance(v, complex) or math.isnan(v) or math.isinf(v) or abs(v) > 1e8:
+            return None
+        out.append(float(v))
+    return out
